@@ -36,8 +36,8 @@ def is_plain_int(v):
 
 
 def opt_int_ge(x, lo):
-    """x is None or a plain int >= lo."""
-    return x is None or (is_plain_int(x) and x >= lo)
+    """x is None or an integer >= lo."""
+    return x is None or (is_integral(x) and x >= lo)
 
 
 # ---------------------------------------------------------------- well-formed validators
@@ -45,7 +45,7 @@ def opt_int_ge(x, lo):
 # type's extremes"): bounds are of the right kind and inside the type's range.
 
 def wf_integer(t):
-    return (is_plain_int(t.minimum) and is_plain_int(t.maximum)
+    return (is_integral(t.minimum) and is_integral(t.maximum)
             and t.default_minimum <= t.minimum and t.maximum <= t.default_maximum)
 
 
@@ -222,3 +222,71 @@ def validate_outcome(t, v):
     if valid(t, v):
         return Ret(norm(t, v))
     return Raise(bv.ValidationError)
+
+
+# ---------------------------------------------------------------- constructors (C08)
+# "constructors establish wf(T) and assert exactly on illegal parameters"
+
+def int_params_ok(t, lo, hi):
+    return ((lo is None or (is_integral(lo) and lo >= t.default_minimum))
+            and (hi is None or (is_integral(hi) and hi <= t.default_maximum)))
+
+
+def as_float(x):
+    if isinstance(x, float):
+        return x
+    return float(x)
+
+
+def real_bound_ok_lo(t, x):
+    return x is None or (is_real(x) and float_convertible(x)
+                         and not (t.default_minimum is not None and as_float(x) < t.default_minimum))
+
+
+def real_bound_ok_hi(t, x):
+    return x is None or (is_real(x) and float_convertible(x)
+                         and not (t.default_maximum is not None and as_float(x) > t.default_maximum))
+
+
+def real_params_ok(t, lo, hi):
+    return real_bound_ok_lo(t, lo) and real_bound_ok_hi(t, hi)
+
+
+def length_params_ok(lo, hi):
+    """min_length/max_length (Bytes) and min_items/max_items (List)."""
+    return (opt_int_ge(lo, 0) and opt_int_ge(hi, 1)
+            and (lo is None or hi is None or hi >= lo))
+
+
+def string_params_ok(lo, hi, pattern):
+    return (opt_int_ge(lo, 0) and opt_int_ge(hi, 1)
+            and (not lo or not hi or hi >= lo)
+            and (pattern is None or isinstance(pattern, str))
+            and (not pattern or pattern_compiles(r"\A(?:" + pattern + r")\Z")))
+
+
+def pattern_compiles(p):
+    return re_valid(p)
+
+
+def re_valid(p):
+    """Axiom RE: the regex engine accepts the pattern (uninterpreted)."""
+    return re_compile_ok(p)
+
+
+def re_compile_ok(p):
+    try:
+        re.compile(p)
+        return True
+    except re.error:
+        return False
+
+
+def nullable_param_ok(v):
+    return (isinstance(v, (bv.Primitive, bv.Composite)) and not isinstance(v, bv.Nullable)
+            and not isinstance(v, bv.Void))
+
+
+def same_float(a, b):
+    """identical doubles (NaN equals NaN; +0.0 and -0.0 are told apart only by sign)"""
+    return (math.isnan(a) and math.isnan(b)) or a == b
